@@ -37,13 +37,16 @@ CONSTANTS DataSets,     \* set of event sequences a run can read
           BufSizes,     \* Split bufsize (Big = larger than any flow)
           MaxRuns,
           Edges1, EdgesY,
+          Caches,       \* subset of BOOLEAN: whether a Cache stands between the reader and the Split
           WriteAlways   \* sensitivity guard: TRUE = a Write that does not compare contents (NoRedo must fail)
 
 Big == 1000
 
 VARIABLES brs, bs,
           run,        \* number of runs started
-          data, tpl,  \* events of the current run; template version
+          src,        \* the events the reader would supply in the current run
+          useCache, cache, loaded,   \* Cache element present; its file (Absent or the stored flow); this run is fed by it
+          data, tpl,  \* events that enter the Split in the current run; template version
           phase,      \* "idle" | "read" | "fill" | "compute" | "emit" | "done"
           pos, block, bi,
           hs,         \* per branch: [bins, oor]   (the Histogram element of the branch)
@@ -53,8 +56,8 @@ VARIABLES brs, bs,
           wrote, launched,    \* files written / converters launched in this run (sets of <<name, ext>>)
           h           \* ghost: per finished run what the harness compares
 
-vars == <<brs, bs, run, data, tpl, phase, pos, block, bi, hs, pending, files, out, wrote, launched, h>>
-view == <<brs, bs, run, data, tpl, phase, pos, block, bi, hs, pending, files, out, wrote, launched>>
+vars == <<brs, bs, src, useCache, cache, loaded, run, data, tpl, phase, pos, block, bi, hs, pending, files, out, wrote, launched, h>>
+view == <<brs, bs, src, useCache, cache, loaded, run, data, tpl, phase, pos, block, bi, hs, pending, files, out, wrote, launched>>
 
 (***************************************************************************)
 (* Branches, variables, names, file contents: AnalysisSem.tla; here fixed   *)
@@ -72,6 +75,7 @@ CsvOf(b, st) == CsvOfP(b, st, ED)
 (* The machine.                                                            *)
 (***************************************************************************)
 Init == /\ brs \in BranchLists /\ bs \in BufSizes
+        /\ useCache \in Caches /\ cache = Absent /\ loaded = FALSE /\ src = <<>>
         /\ run = 0 /\ data = <<>> /\ tpl = 1 /\ phase = "idle"
         /\ pos = 0 /\ block = <<>> /\ bi = 1
         /\ hs = [i \in 1..Len(brs) |-> Empty(brs[i])]
@@ -79,32 +83,37 @@ Init == /\ brs \in BranchLists /\ bs \in BufSizes
 
 \* a new run: new element objects (fresh histograms), same output directory
 StartRun == /\ phase = "idle" /\ run < MaxRuns
-            /\ \E d \in DataSets : data' = d
+            \* a filled cache replays the stored flow: the reader is not asked, whatever it would supply now
+            /\ loaded' = (useCache /\ cache # Absent)
+            /\ \E d \in DataSets : src' = d /\ data' = IF loaded' THEN cache.c ELSE d
             /\ \E t \in {tpl, tpl + 1} : (t = tpl \/ run > 0) /\ t <= 2 /\ tpl' = t
             /\ run' = run + 1 /\ phase' = "read" /\ pos' = 0 /\ block' = <<>> /\ bi' = 1
             /\ hs' = [i \in 1..Len(brs) |-> Empty(brs[i])]
             /\ out' = <<>> /\ wrote' = {} /\ launched' = {} /\ pending' = Absent
-            /\ UNCHANGED <<brs, bs, files, h>>
+            /\ UNCHANGED <<brs, bs, useCache, cache, files, h>>
 
 \* Split.run reads the next block of at most bufsize events; an empty block ends the input
 ReadBlock == /\ phase = "read"
              /\ LET k == IF Len(data) - pos < bs THEN Len(data) - pos ELSE bs IN
                 IF k = 0 THEN /\ phase' = "compute" /\ bi' = 1 /\ UNCHANGED <<pos, block>>
+                              \* the flow is exhausted: a Cache that was being filled now holds the whole flow
+                              /\ cache' = IF useCache /\ ~loaded THEN File(data) ELSE cache
                 ELSE /\ block' = SubSeq(data, pos + 1, pos + k) /\ pos' = pos + k /\ phase' = "fill" /\ bi' = 1
-             /\ UNCHANGED <<brs, bs, run, data, tpl, hs, pending, files, out, wrote, launched, h>>
+                     /\ UNCHANGED cache
+             /\ UNCHANGED <<brs, bs, src, useCache, loaded, run, data, tpl, hs, pending, files, out, wrote, launched, h>>
 
 \* every branch gets (a copy of) the whole block before the next block is read
 FillBranch == /\ phase = "fill"
               /\ IF bi > Len(brs) THEN phase' = "read" /\ UNCHANGED <<hs, bi>>
                  ELSE /\ hs' = [hs EXCEPT ![bi] = FillAll(brs[bi], @, block)] /\ bi' = bi + 1 /\ UNCHANGED phase
-              /\ UNCHANGED <<brs, bs, run, data, tpl, pos, block, pending, files, out, wrote, launched, h>>
+              /\ UNCHANGED <<brs, bs, src, useCache, cache, loaded, run, data, tpl, pos, block, pending, files, out, wrote, launched, h>>
 
 \* after the last block the fill/compute branches are computed in branch order; each result is pulled
 \* through the output chain before the next compute (the chain is lazy)
 Compute == /\ phase = "compute" /\ pending = Absent
            /\ IF bi > Len(brs) THEN phase' = "done" /\ UNCHANGED <<pending, bi>>
               ELSE pending' = File([b |-> bi]) /\ bi' = bi + 1 /\ UNCHANGED phase
-           /\ UNCHANGED <<brs, bs, run, data, tpl, pos, block, hs, files, out, wrote, launched, h>>
+           /\ UNCHANGED <<brs, bs, src, useCache, cache, loaded, run, data, tpl, pos, block, hs, files, out, wrote, launched, h>>
 
 \* MakeFilename, ToCSV, Write, RenderLaTeX, Write, LaTeXToPDF, PDFToPNG for one result:
 \* a file is written when it does not exist or its content differs; a converter runs when its target does not
@@ -130,15 +139,15 @@ Emit == /\ phase = "compute" /\ pending # Absent
               /\ out' = Append(out, [name |-> Name(b), var |-> VarCtx(b), dim |-> Dim(b),
                                      bins |-> hs[i].bins, oor |-> hs[i].oor])
         /\ pending' = Absent
-        /\ UNCHANGED <<brs, bs, run, data, tpl, phase, pos, block, bi, hs, h>>
+        /\ UNCHANGED <<brs, bs, src, useCache, cache, loaded, run, data, tpl, phase, pos, block, bi, hs, h>>
 
 SetToSeq(S) == LET RECURSIVE Go(_) Go(T) == IF T = {} THEN <<>> ELSE LET x == CHOOSE y \in T : TRUE IN <<x>> \o Go(T \ {x}) IN Go(S)
 EndRun == /\ phase = "done" /\ phase' = "idle"
-          /\ h' = Append(h, [data |-> data, tpl |-> tpl, out |-> out,
+          /\ h' = Append(h, [src |-> src, data |-> data, tpl |-> tpl, out |-> out, pulled |-> IF loaded THEN 0 ELSE Len(src),
                              files |-> [k \in 1..Cardinality(DOMAIN files) |->
                                           LET key == SetToSeq(DOMAIN files)[k] IN [key |-> key, c |-> files[key].c]],
                              wrote |-> SetToSeq(wrote), launched |-> SetToSeq(launched)])
-          /\ UNCHANGED <<brs, bs, run, data, tpl, pos, block, bi, hs, pending, files, out, wrote, launched>>
+          /\ UNCHANGED <<brs, bs, src, useCache, cache, loaded, run, data, tpl, pos, block, bi, hs, pending, files, out, wrote, launched>>
 
 Next == StartRun \/ ReadBlock \/ FillBranch \/ Compute \/ Emit \/ EndRun
 Spec == Init /\ [][Next]_vars
@@ -192,7 +201,14 @@ RunIsSem == phase = "done" =>
               /\ launched = RunLaunched(FilesBefore, F1, brs)
               /\ out = RunOut(brs, data, ED)
 
-Emitted == (phase = "idle" /\ run = MaxRuns) => PrintT(ToJson([brs |-> brs, bs |-> bs, edges1 |-> Edges1, edgesy |-> EdgesY, runs |-> h]))
+\* a Cache is transparent while it is filled and replays exactly the stored flow afterwards: every later run
+\* sees the events of the first run, and only the first run reads
+CacheRef == /\ (cache # Absent) => (useCache /\ Len(h) + (IF phase = "idle" THEN 0 ELSE 1) >= 1)
+            /\ (phase \in {"compute", "done"} /\ ~loaded) => data = src
+            /\ (phase # "idle" /\ loaded) => (Len(h) >= 1 /\ data = h[1].data /\ cache = File(h[1].data))
+            /\ ~useCache => (cache = Absent /\ ~loaded)
+
+Emitted == (phase = "idle" /\ run = MaxRuns) => PrintT(ToJson([brs |-> brs, bs |-> bs, cache |-> useCache, edges1 |-> Edges1, edgesy |-> EdgesY, runs |-> h]))
 
 (***************************************************************************)
 (* Model values.                                                           *)
